@@ -21,7 +21,9 @@ from openfisca_core import periods
 from openfisca_core.entities import build_entity
 from openfisca_core.holders import set_input_dispatch_by_period, set_input_divide_by_period
 from openfisca_core.indexed_enums import Enum
+from openfisca_core.parameters import ParameterNode
 from openfisca_core.periods import DateUnit
+from openfisca_core.reforms import Reform
 from openfisca_core.simulations import SimulationBuilder
 from openfisca_core.taxbenefitsystems import TaxBenefitSystem
 from openfisca_core.variables import Variable
@@ -170,6 +172,7 @@ class System:
         self.groups = [build_entity(key=k, plural=p, label="", roles=copy.deepcopy(r)) for k, p, r in groups]
         self.entities = [self.person] + self.groups
         self.tbs = TaxBenefitSystem(self.entities)
+        self.tbs.parameters = ParameterNode("", data={})      # so that the system can be cloned
         self.vars = vars_
         self.var = {v["name"]: v for v in vars_}
         ent_by_key = {e.key: e for e in self.entities}
@@ -380,7 +383,7 @@ def enc_array(a, v):
 def observe(S, sim):
     out = []
     for ent in S.entities:
-        pop = sim.populations[ent.key]
+        pop = sim.populations[ent.key]     # by key: a cloned / reformed system has its own entity objects
         ids = [str(i) for i in pop.ids]
         if ent.is_person:
             mem, roles, pos = [], [], []
@@ -465,9 +468,45 @@ def check_scale(c, o):
     return None
 
 
+WARM_UP = {"persons": {"w1": {"p_int_m": {"2018-01": 1}}, "w2": {}},
+           "households": {"wh": {"parents": ["w1"], "h_rent": {"2018-01": 9}}}}
+
+
+class _NoChange(Reform):
+    def apply(self):
+        pass
+
+
+def build_with_history(c, doc, mode):
+    """The same situation after different histories of the tax-benefit system / the builder."""
+    from common import errkind
+    ref = SYSTEMS[c["sys"]]
+    try:
+        S = System(ref.name, ref.group_desc, ref.vars)          # a system that never built anything
+        tbs = S.tbs
+        if mode != "fresh":
+            SimulationBuilder().build_from_dict(tbs, copy.deepcopy(WARM_UP))
+        if mode == "clone":
+            tbs = tbs.clone()
+        elif mode == "reform":
+            tbs = _NoChange(tbs)
+        elif mode == "clone_fresh":
+            tbs = System(ref.name, ref.group_desc, ref.vars).tbs.clone()     # cloned before any build
+        elif mode == "twice":
+            SimulationBuilder().build_from_dict(tbs, copy.deepcopy(doc))
+        sim = SimulationBuilder().build_from_dict(tbs, copy.deepcopy(doc))
+        if sim is None:
+            return Err("EOther", "build_from_dict returned None")
+        return observe(S, sim)
+    except Exception as e:  # noqa: BLE001
+        return Err(errkind(e), f"{type(e).__name__} ({mode}): {e}"[:200])
+
+
 def run_impl(c):
     if c["kind"] == "scale":
         return run_scale(c)
+    if c["kind"] == "history":
+        return [build_with_history(c, d, m) for d, m in zip(c["docs"], c["meta"]["modes"])]
     S = SYSTEMS[c["sys"]]
     return [build_one(S, d) for d in c["docs"]]
 
@@ -788,6 +827,11 @@ def oracle(c, o):
         for r in o[1:]:
             if r != o[0]:
                 return "spelling: two spellings of the same document build different simulations"
+    if kind == "history":
+        for r, m in zip(o[1:], c["meta"]["modes"][1:]):
+            if r != o[0]:
+                return (f"history: the situation built on a system with history '{m}' differs from the one "
+                        f"built on a fresh system")
     return None
 
 
@@ -1240,6 +1284,10 @@ def gen_axes_case(rng, S):
         if ok:
             break
     doc = render(doc_abs, rng)
+    if not short and rng.random() < 0.3:
+        g0 = S.groups[0]
+        if isinstance(doc.get(g0.plural), dict) and "vacant" not in doc[g0.plural] and "vacant" not in persons:
+            doc[g0.plural]["vacant"] = rng.choice([{}, {"h_rent": {"2018-03": 5}}, {"parents": []}])
     cands = axis_candidates(S)
     ndim = rng.choice([1, 1, 1, 2, 2, 3])
     counts = [rng.randint(1, 4)] if ndim == 1 else [rng.randint(2, 3) for _ in range(ndim)]
@@ -1536,6 +1584,15 @@ def fixed_cases():
               "axes": [[{"count": 3, "name": "p_int_m", "min": mn, "max": mx, "period": "2018-01"},
                         {"count": 3, "name": "p_int_y", "min": mx, "max": mn, "period": "2018", "index": 1}]]}
         case("axes", "full", [bx] + expand_copies(SYSTEMS[A], bx, bx["axes"]), meta={"ordered": True})
+    # the same situation after different histories of the system (left-out person, group input)
+    hd = {"persons": {"a": {}, "b": {}, "c": {}},
+          "households": {"h1": {"parents": ["a"], "h_rent": {"2018-01": 800}, "h_kind": {"ETERNITY": "blue"}}}}
+    case("history", "full", [hd] * 6, meta={"modes": ["fresh", "used", "clone", "reform", "twice", "clone_fresh"]})
+    # axes when the group declared last has no member
+    ev = {"persons": {"a": {"p_int_m": {"2018-01": 3}}, "b": {}},
+          "households": {"h1": {"parents": ["a"], "children": ["b"]}, "hV": {"h_rent": {"2018-01": 700}}},
+          "axes": [[{"count": 3, "name": "p_int_m", "min": 0, "max": 4, "period": "2018-01"}]]}
+    case("axes", "full", [ev] + expand_copies(SYSTEMS[A], ev, ev["axes"]), meta={"ordered": True})
     # weeks and week days whose ISO year is not the calendar year of their first day
     case("spelling", "full", [
         {"persons": {"a": {"p_int_w": {"week:2018-12-31": 5, "week:2014-12-29": 6},
@@ -1586,6 +1643,35 @@ def generate(rng, tier):
         if rng.random() < 0.5:
             docs.append(render(a, rng, canonical=True, strict=strict))
         cases.append({"sys": S.name, "kind": "spelling", "shape": shape, "docs": docs, "mut": None, "meta": {}})
+    # histories: the same situation on a fresh system, a used one, a clone, a reform, built twice
+    MODES = ["fresh", "used", "clone", "reform", "twice", "clone_fresh"]
+    n_hist = 0
+    guard = 0
+    while n_hist < 25 * scale and guard < 2000:
+        guard += 1
+        S = SYSTEMS[sysname()]
+        short = rng.random() < 0.2
+        doc = render(gen_entities_doc(rng, S, short=short)[0], rng)
+        d = normalise(S, doc)
+        persons = list(d.get("persons", {}))
+        # wanted: a group kind with a declared input and a person left out of it (not always)
+        wanted = False
+        for g in S.groups:
+            inst = d.get(g.plural)
+            if isinstance(inst, dict) and inst:
+                rn = [r.get("plural") or r["key"] for r in S.roles(g.key)]
+                placed = {p_ for f in inst.values() for k_ in rn for p_ in as_list(f.get(k_, []))}
+                has_input = any(k_ not in rn for f in inst.values() for k_ in f)
+                if has_input and any(p_ not in placed for p_ in persons):
+                    wanted = True
+        if not wanted and n_hist % 4 != 3:
+            continue
+        modes = ["fresh"] + rng.sample(MODES[1:], 3)
+        if "clone" not in modes:
+            modes[rng.randint(1, 3)] = "clone"
+        cases.append({"sys": S.name, "kind": "history", "shape": "short" if short else "full",
+                      "docs": [doc] * len(modes), "mut": None, "meta": {"modes": modes}})
+        n_hist += 1
     # axes
     n_axes = 0
     while n_axes < 70 * scale:
